@@ -227,9 +227,22 @@ theorem getD_take (l : List Int) (m k : Nat) (hk : k < m) : (l.take m).getD k 0 
 
 /-- `ref_sort_unique_int` for `n ≥ 1`: `nunique` counts a strictly increasing list with the same
     elements as the input -/
-theorem uniqueInt_spec (a : List Int) (ha : a ≠ []) :
+theorem uniqueInt_cons (x : Int) (xs : List Int) :
+    uniqueInt (x :: xs) =
+      ((uniqueLoop ((x :: xs).length - 1) 1 0 (sortInsertion (x :: xs))).1 + 1,
+       (uniqueLoop ((x :: xs).length - 1) 1 0 (sortInsertion (x :: xs))).2) := rfl
+
+theorem uniqueInt_spec_ne (a : List Int) (ha : a ≠ []) :
     (uniqueInt a).1 = (uniqueList a).length ∧ (uniqueList a).Pairwise (· < ·) ∧
       ∀ x, x ∈ uniqueList a ↔ x ∈ a := by
+  obtain ⟨x0, xs0, rfl⟩ : ∃ x xs, a = x :: xs := by
+    cases a with
+    | nil => exact absurd rfl ha
+    | cons x xs => exact ⟨x, xs, rfl⟩
+  generalize hA : x0 :: xs0 = a at *
+  have hcons : uniqueInt a = ((uniqueLoop (a.length - 1) 1 0 (sortInsertion a)).1 + 1,
+      (uniqueLoop (a.length - 1) 1 0 (sortInsertion a)).2) := by
+    subst hA; exact uniqueInt_cons x0 xs0
   have hperm := sortInsertion_perm a
   have hsorted := (pairwise_iff_getD _).1 (sortInsertion_sorted a)
   have hlen : (sortInsertion a).length = a.length := hperm.length_eq
@@ -237,7 +250,7 @@ theorem uniqueInt_spec (a : List Int) (ha : a ≠ []) :
   obtain ⟨h1, h2, h3, h4⟩ := uniqueLoop_spec (sortInsertion a) hsorted (a.length - 1) 1 0 (sortInsertion a)
     rfl (by omega) (by omega) (fun _ _ => rfl) (fun a b hab hb => by omega) rfl
     (fun x => ⟨fun ⟨k, hk, hx⟩ => ⟨k, by omega, hx⟩, fun ⟨k, hk, hx⟩ => ⟨k, by omega, hx⟩⟩)
-  simp only [uniqueList, uniqueInt]
+  simp only [uniqueList, hcons]
   generalize uniqueLoop (a.length - 1) 1 0 (sortInsertion a) = r at h1 h2 h3 h4
   obtain ⟨j, u⟩ := r
   simp only at h1 h2 h3 h4 ⊢
@@ -256,7 +269,17 @@ theorem uniqueInt_spec (a : List Int) (ha : a ≠ []) :
     · rintro ⟨k, hk, hx⟩
       exact ⟨k, by omega, by rwa [getD_take _ _ _ (by omega)]⟩
 
-theorem uniqueInt_nil : uniqueInt [] = (1, []) := by decide
+theorem uniqueInt_nil : uniqueInt [] = (0, []) := rfl
+
+/-- `ref_sort_unique_int` for every `n` (the empty list included): `nunique` counts a strictly increasing list
+    with the same elements as the input -/
+theorem uniqueInt_spec (a : List Int) :
+    (uniqueInt a).1 = (uniqueList a).length ∧ (uniqueList a).Pairwise (· < ·) ∧
+      ∀ x, x ∈ uniqueList a ↔ x ∈ a := by
+  by_cases ha : a = []
+  · subst ha
+    simp [uniqueList, uniqueInt_nil]
+  · exact uniqueInt_spec_ne a ha
 
 
 theorem strictSorted_ext {l₁ l₂ : List Int} (h₁ : l₁.Pairwise (· < ·)) (h₂ : l₂.Pairwise (· < ·))
@@ -266,10 +289,10 @@ theorem strictSorted_ext {l₁ l₂ : List Int} (h₁ : l₁.Pairwise (· < ·))
   exact List.Perm.eq_of_pairwise (le := (· < ·)) (fun a b _ _ hab hba => by omega) h₁ h₂
     ((List.perm_ext_iff_of_nodup d₁ d₂).2 h)
 
-theorem sortSame_eq (l0 l1 : List Int) (h0 : l0 ≠ []) (h1 : l1 ≠ []) :
+theorem sortSame_eq (l0 l1 : List Int) :
     sortSame l0 l1 = true ↔ uniqueList l0 = uniqueList l1 := by
-  obtain ⟨hn0, -, -⟩ := uniqueInt_spec l0 h0
-  obtain ⟨hn1, -, -⟩ := uniqueInt_spec l1 h1
+  obtain ⟨hn0, -, -⟩ := uniqueInt_spec l0
+  obtain ⟨hn1, -, -⟩ := uniqueInt_spec l1
   simp only [sortSame, uniqueList] at *
   generalize uniqueInt l0 = r0 at *
   generalize uniqueInt l1 = r1 at *
@@ -297,12 +320,12 @@ theorem sortSame_eq (l0 l1 : List Int) (h0 : l0 ≠ []) (h1 : l1 ≠ []) :
     intro i hi
     rw [← getD_take u0 n0 i hi, ← getD_take u1 n0 i hi, h]
 
-/-- `ref_sort_same` decides equality of the sets of elements (for `n ≥ 1`) -/
-theorem sortSame_spec (l0 l1 : List Int) (h0 : l0 ≠ []) (h1 : l1 ≠ []) :
+/-- `ref_sort_same` decides equality of the sets of elements (for every `n`, 0 included) -/
+theorem sortSame_spec (l0 l1 : List Int) :
     sortSame l0 l1 = true ↔ ∀ x, x ∈ l0 ↔ x ∈ l1 := by
-  rw [sortSame_eq l0 l1 h0 h1]
-  obtain ⟨-, hs0, hm0⟩ := uniqueInt_spec l0 h0
-  obtain ⟨-, hs1, hm1⟩ := uniqueInt_spec l1 h1
+  rw [sortSame_eq l0 l1]
+  obtain ⟨-, hs0, hm0⟩ := uniqueInt_spec l0
+  obtain ⟨-, hs1, hm1⟩ := uniqueInt_spec l1
   constructor
   · intro h x; rw [← hm0, ← hm1, h]
   · intro h; exact strictSorted_ext hs0 hs1 (fun x => by rw [hm0, hm1, h])
